@@ -9,7 +9,7 @@ theorem denseWithMax_ok (ok : CfgOK c) (mx : Nat) :
     WF c (denseWithMax c mx) ∧ elems c (denseWithMax c mx) = [] := by
   unfold denseWithMax
   have hW : c.W ≠ 0 := by have := ok.W_pos; omega
-  exact ⟨WF_replicate c (ok.denseCap_pos mx) hW, elems_zero c (fun w hw => replicate_zero_mem hw)⟩
+  exact ⟨WF_replicate c (ok.denseCap_pos mx) hW Nat.lt_two_pow_self, elems_zero c (fun w hw => replicate_zero_mem hw)⟩
 
 theorem withCapMax_ok (ok : CfgOK c) {D : Type} (g : Rng D)
     (cap mx : Nat) (d d' : D) (r : Rp) (h : withCapMax c g cap mx d = .ok (r, d')) :
@@ -19,8 +19,8 @@ theorem withCapMax_ok (ok : CfgOK c) {D : Type} (g : Rng D)
   · rw [pure_run] at h
     cases h
     have hW : c.W ≠ 0 := by have := ok.W_pos; omega
-    exact ⟨WF_replicate c (ok.denseCap_pos mx) hW, elems_zero c (fun w hw => replicate_zero_mem hw)⟩
-  · exact withCapBits_ok ok g _ _ _ _ _ h
+    exact ⟨WF_replicate c (ok.denseCap_pos mx) hW Nat.lt_two_pow_self, elems_zero c (fun w hw => replicate_zero_mem hw)⟩
+  · exact withCapBits_ok ok g _ _ (ok.cab_lt mx) _ _ _ h
 
 #print axioms denseWithMax_ok
 #print axioms withCapMax_ok
